@@ -1,6 +1,6 @@
 (* Property C19: merging register ranges never drops a requested register.
    Only statements; every proof is `exact <lemma>` into Proofs/Plc.v. *)
-From Coq Require Import ZArith List Bool Sorting.Sorted.
+From Coq Require Import ZArith List Bool Sorting.Sorted Sorting.Permutation.
 From CV Require Import Model.Plc Proofs.Plc.
 Import ListNotations.
 Open Scope Z_scope.
@@ -36,6 +36,12 @@ Theorem C19_shatter : forall a c limit, limit_wf limit -> 0 <= c ->
   Forall (fun r => snd r <= eff_limit a limit) (shatter a c limit).
 Proof. exact shatter_tiles. Qed.
 Print Assumptions C19_shatter.
+
+(* The ranges are a finite *set* as far as order goes: any reordering of the request list gives the same result. *)
+Theorem C19_merge_order_irrelevant : forall rs rs' reach limit,
+  Permutation rs rs' -> merge rs reach limit = merge rs' reach limit.
+Proof. exact merge_perm. Qed.
+Print Assumptions C19_merge_order_irrelevant.
 
 (* Splitting never uses more transfers than the limit forces: ceil(count / limit) pieces. *)
 Theorem C19_shatter_count : forall a c limit, limit_wf limit -> 0 <= c ->
